@@ -186,6 +186,24 @@ def c01_cases(tier, seed):
         nsfiles = {ns: {l: tree(l, ns) for l in locales} for ns in ("common", "home")}
         cases.append(Case(Project(default, locales, nsfiles, namespaces=["common", "home"], style=STYLES[(j + 1) % len(STYLES)]),
                           "c01_namespaces/%d" % j, roles={"*": "namespaces"}))
+    # whitespace-only literal pieces between interpolations / as a component's only child; empty component
+    for j, (default, locales) in enumerate(LOCALE_SETS[1:3]):
+        files = {l: {
+            "ws1": S(V("first"), " ", V("last")),
+            "ws2": S(Cp("b", "bold " + l), " ", Cp("i", "italic")),
+            "ws3": S(V("a"), "\n", V("b"), "\t", V("a")),
+            "ws4": S("[", Cp("b", " "), "]", Cp("i"), "  ", V("x"), "  "),
+            "ws5": S(" ", V("x"), " "),
+            "ws6": S("   "),
+        } for l in locales}
+        cases.append(Case(Project(default, locales, files, style=STYLES[j]), "c01_whitespace/%d" % j, roles={"*": "whitespace_only_pieces"}))
+    # numbers / bools reaching a run of literal text through a foreign key or a literal argument, in first position
+    files = {l: {
+        "n": NUM(5), "neg": NUM(-3), "fl": NUM(2.5), "yes": ("bool", True), "tpl": S(V("n"), " items in ", V("where")),
+        "a": S(FK("n"), " apples " + l), "b": S(FK("neg"), FK("fl"), FK("yes"), " end"), "c": S(FK("tpl", {"n": NUM(3), "where": S("box")})),
+        "d": S(FK("tpl", {"n": ("bool", False), "where": NUM(7)}), "!"), "e": S("I have ", FK("n"), " apples"), "f": S(FK("yes")),
+    } for l in ("en", "fr")}
+    cases.append(Case(Project("en", ["en", "fr"], files), "c01_fk_literals/0", roles={"*": "literal_joined_into_text"}))
     # > 26 pieces in one value (tuple chunking: 27, 28, 53, 60 pieces) and > 16 locales (nested EitherOf)
     def pieces(n, marker):
         nm = Namer(marker, rng)
@@ -272,6 +290,9 @@ INT_TYPES_ALL = ["i8", "i16", "i32", "i64", "u8", "u16", "u32", "u64"]
 
 
 def boundary_values(ty):
+    if ty == "f64":
+        # 0.1 and 16777217.0 are not representable in f32: a detour through f32 changes them
+        return [-2.5, -1.0, -0.0, 0.0, 0.1, 0.5, 1.0, 2.5, 16777217.0, 1e9]
     if ty in _model.FLOAT_TYPES:
         return [-2.5, -1.0, -0.0, 0.0, 0.5, 1.0, 2.5, 1e9]
     lo, hi = _model.INT_RANGE[ty]
@@ -315,7 +336,7 @@ def c04_cases(tier, seed):
     per_type = 2 if tier == "quick" else 12
     ci = 0
     for ty in types:
-        for rep in range(per_type):
+        for rep in range(per_type * (2 if ty in ("f32", "f64") else 1)):
             style = styles[(ci + rep) % len(styles)]
             files = {"en": {}, "fr": {}}
             roles = {}
@@ -339,10 +360,21 @@ def c04_cases(tier, seed):
                 n = vals[(k * 3 + rep) % len(vals)]
                 if ety in _model.FLOAT_TYPES and n == 1e9:
                     n = 2.5
+                # a second literal count sitting exactly on a bound of this declaration (where inclusive / exclusive,
+                # type conversions and rounding matter)
+                used = []
+                for specs, _ in branches[:-1]:
+                    for sp in specs:
+                        used += [x for x in (sp[1:3] if sp[0] == "bounds" else sp[1:2]) if x is not None]
+                nb2 = used[(k + rep) % len(used)] if used else n
+                if ety in _model.FLOAT_TYPES:
+                    nb2 = float(nb2)
                 for l in ("en", "fr"):
                     files[l]["f%d" % k] = S("<", FK("r%d" % k, {"count": NUM(n)}), ">")
+                    files[l]["h%d" % k] = S("{", FK("r%d" % k, {"count": NUM(nb2)}), "}")
                     files[l]["g%d" % k] = S(FK("r%d" % k, {"count": S(V("n"))}), " end")
                 roles[(None, ("f%d" % k,))] = "range_fk_literal_count:%s" % ety
+                roles[(None, ("h%d" % k,))] = "range_fk_literal_count_on_bound:%s" % ety
                 roles[(None, ("g%d" % k,))] = "range_fk_renamed_count:%s" % ety
             cases.append(Case(Project("en", ["en", "fr"], files, style=style), "c04_ranges/%s/%d" % (ety, rep), roles=roles))
             ci += 1
@@ -442,6 +474,7 @@ ARG_KINDS = [
     ("nested_fk", lambda: S("nested ", FK("t_lit"))),
     ("nested_fk_args", lambda: S(FK("t_var", {"name": S("N"), "other": S(V("o2"))}))),
     ("comp_in_arg", lambda: S(Cp("i", "em"))),
+    ("unicode", lambda: S("Zoé à Orléans, 日本 😀")),
 ]
 
 
@@ -463,7 +496,10 @@ def c06_cases(tier, seed):
             for prefix in ("a_", "z_"):
                 key = "%sref%d" % (prefix, ti)
                 for l in locales:
-                    files[l][key] = S("[", FK(t, {"name": mk(), "unused": S("dropped")}), "]")
+                    if prefix == "a_":
+                        files[l][key] = S("[", FK(t, {"name": mk(), "unused": S("dropped")}), "]")
+                    else:
+                        files[l][key] = S(FK(t, {"name": mk(), "unused": S("dropped é")}), " after")      # reference in first position
                 roles[(None, (key,))] = "fk_%s_to_%s" % (aname, t.replace(".", "_"))
         cases.append(Case(Project("en", locales, files, style=STYLES[ai % len(STYLES)] if ai % 3 else {"fk_spaces": True}),
                           "c06_args/%s" % aname, roles=roles))
@@ -503,6 +539,12 @@ def c06_cases(tier, seed):
             elif which == "two_counts":
                 f["two"] = S(FK("t_plural", {"count": S(V("a"))}), " / ", FK("t_plural", {"count": S(V("b"))}))
         return files
+    # a reference written inside a component of the referencing key
+    files = base(["en", "fr"])
+    for l in ("en", "fr"):
+        files[l]["in_comp"] = S(Cp("b", FK("t_lit")), " tail")
+        files[l]["in_comp2"] = S("head ", Cp("b", "x ", FK("t_var", {"name": S("N")}), " y"))
+    cases.append(Case(Project("en", ["en", "fr"], files), "c06_fk_inside_component/0", roles={"*": "fk_inside_component"}))
     for which in ("chains", "args_through_chain", "fk_inside_plural", "fk_inside_range", "two_counts"):
         cases.append(Case(Project("en", ["en", "fr"], chain_files(which)), "c06_%s/0" % which, roles={"*": which}))
     # ---- targets that are null / inherited in the referencing locale
